@@ -74,7 +74,7 @@ func c10BigFrame() qframe.QFrame {
 	return c10big
 }
 
-var c10VariantNames = []string{"base", "empty", "sorted-sliced", "selected", "aggregated"}
+var c10VariantNames = []string{"base", "empty", "sorted-sliced", "selected", "aggregated", "aggregated-by-enum"}
 
 var c10vars []qframe.QFrame
 
@@ -90,6 +90,10 @@ func c10Variants() []qframe.QFrame {
 			q.Select("e4", "e3", "e", "s", "b", "f", "i2", "i"),
 			q.GroupBy(groupby.Columns("i")).Aggregate(
 				qframe.Aggregation{Fn: "sum", Column: "f"}, qframe.Aggregation{Fn: "majority", Column: "b"},
+				qframe.Aggregation{Fn: first, Column: "s"}, qframe.Aggregation{Fn: "max", Column: "i2"}),
+			// the declared enum column as the key column of an aggregation: still the declared enum
+			q.GroupBy(groupby.Columns("e")).Aggregate(
+				qframe.Aggregation{Fn: "sum", Column: "i"}, qframe.Aggregation{Fn: "sum", Column: "f"}, qframe.Aggregation{Fn: "majority", Column: "b"},
 				qframe.Aggregation{Fn: first, Column: "s"}, qframe.Aggregation{Fn: "max", Column: "i2"}),
 		}
 	}
@@ -981,6 +985,20 @@ func runSticky(c zooCase) *core.Failure {
 	if _, err := q.IntView("i"); false && err == nil {
 		_ = err // views of errored frames are not specified by the statement
 	}
+	// every observer of a failed frame may be called (whatever it returns): none of them panics
+	_ = q.ColumnNames()
+	_ = q.ColumnTypes()
+	_ = q.ColumnTypeMap()
+	_ = q.Contains("i")
+	_ = q.ByteSize()
+	_, _ = q.Equals(q)
+	_, _ = q.Equals(base)
+	_, _ = base.Equals(q)
+	_, _ = q.IntView("i")
+	_, _ = q.StringView("s")
+	_, _ = q.FloatView("f")
+	_, _ = q.BoolView("b")
+	_, _ = q.EnumView("e")
 	// writing, grouping and printing the failed frame must have left its error as it was
 	_ = q.String()
 	if after := q.Err.Error(); !strings.Contains(after, firstText) || (len(c.Cont) == 0 && after != firstText) {
